@@ -13,6 +13,7 @@ mod vbus;
 
 mod eng_c11;
 mod eng_c12;
+mod eng_c15;
 mod eng_codec;
 mod eng_diag;
 mod eng_dp;
@@ -161,6 +162,7 @@ fn main() {
         "C14" => eng_dp::c14(&mut ctx),
         "C09" => eng_codec::c09(&mut ctx),
         "C10" => eng_codec::c10(&mut ctx),
+        "C15" => eng_c15::c15(&mut ctx),
         "C16" => eng_rx::c16(&mut ctx),
         "C19" => eng_gsd::c19(&mut ctx),
         "C20" => eng_prm::c20(&mut ctx),
